@@ -259,7 +259,7 @@ CHECKS['C14'] = dict(
     level='exploration',
     rule='generated workloads of 2-8 threads, each a list of up to 7 operations from {create own VM (14 flag sets incl. HARD_AES, JIT, SECURE, v2; light mode over the shared cache - which in about half of the workloads is freshly created and keyed with no VM attached yet - or fast mode over a shared complete dataset), hash, pipelined batch, destroy, '
          'randomx_init_dataset on a disjoint generated range of the shared (sparse) dataset from the shared cache (interpreted or compiled initialiser, ranges of 1..1016 items, unaligned starts, the last items), '
-         'private cache alloc/init/re-key/release, generated yields/spins}; all threads start together. Oracle: every digest and sampled dataset item equals the sequential result (expectations come from a private cache / an interpreter VM so that the oracle shares no lazily built state with the objects under test; the fast-mode dataset has synthetic content, which the equality oracle does not care about); the ThreadSanitizer build '
+         'private cache alloc/init/re-key/release, generated yields/spins}; all threads start together. A third sub-check generates dataset-initialisation-heavy workloads (4-8 threads, ~7 short ranges of 1..12 items each, interpreted initialiser whose stores ThreadSanitizer sees). Ranges of one workload are disjoint by construction (exactly one may reach the last item). Oracle: every digest and sampled dataset item equals the sequential result (expectations come from a private cache / an interpreter VM so that the oracle shares no lazily built state with the objects under test; the fast-mode dataset has synthetic content, which the equality oracle does not care about); the ThreadSanitizer build '
          '(happens-before detection, independent of the observed timing) reports no data race during the workload. Non-trivial: workload with >= 2 threads and >= 2 different operation kinds on shared objects',
     assumptions=COMMON_ASSUME + ['stores made by JIT-emitted code are not instrumented (byte-equality oracle only there)', 'TSan sees races between accesses within its history window; liveness is out of reach',
                                  'interleavings are produced by the OS scheduler over generated yields, not enumerated'],
